@@ -15,6 +15,13 @@ Lemma MARK_not_EXTERN : MARK_BIT <> EXTERN_BIT. Proof. vm_compute. discriminate.
 Lemma MARK_not_ROOT : MARK_BIT <> ROOT_BIT. Proof. vm_compute. discriminate. Qed.
 Lemma LEAF_not_FINALIZE : LEAF_BIT <> FINALIZE_BIT. Proof. vm_compute. discriminate. Qed.
 Lemma LEAF_not_ROOT : LEAF_BIT <> ROOT_BIT. Proof. vm_compute. discriminate. Qed.
+Lemma FINALIZE_not_ROOT : FINALIZE_BIT <> ROOT_BIT. Proof. vm_compute. discriminate. Qed.
+Lemma FINALIZE_not_EXTERN : FINALIZE_BIT <> EXTERN_BIT. Proof. vm_compute. discriminate. Qed.
+(* the repaired code: LEAF is never forced at registration, the scanner tests the current size,
+   GC:reregister writes the new size before it may run a cycle (the model does the same) *)
+Lemma auto_leaf_off : AUTO_LEAF_ON_REGISTER = false. Proof. reflexivity. Qed.
+Lemma scan_size_test_on : SCAN_SIZE_TEST = true. Proof. reflexivity. Qed.
+Lemma resize_before_step : RESIZE_BEFORE_STEP = true. Proof. reflexivity. Qed.
 Lemma WORD_SIZE_pos : 0 < WORD_SIZE. Proof. vm_compute. reflexivity. Qed.
 
 (* ---------- flags ---------- *)
@@ -314,7 +321,7 @@ Proof.
     destruct (marked it); [now apply IH|].
     assert (S : shape (update w (set_mark it) its) = shape its) by (eapply shape_update; eauto).
     assert (ND' : NoDup (keys (update w (set_mark it) its))) by (rewrite keys_update; auto).
-    destruct (hasflag (iflags it) LEAF_BIT); intros E; apply IH in E; auto; congruence.
+    destruct (noscan it); intros E; apply IH in E; auto; congruence.
 Qed.
 
 Lemma mark_loop_shape fuel o a : forall pend its its',
@@ -520,7 +527,8 @@ Proof.
   - destruct (lookup ptr (items g)); [|now apply WF_set_err].
     destruct (_ && _); [|now apply WF_set_err]. unfold gc_realloc.
     destruct (newptr =? 0); auto. now apply WF_reregister.
-  - destruct (lookup ptr (items g)); [|now apply WF_set_err]. unfold gc_dealloc.
+  - destruct (lookup ptr (items g)); [|now apply WF_set_err].
+    destruct (dealloc_ok _); [|now apply WF_set_err]. unfold gc_dealloc.
     assert (WF (unregister run_fin true ptr g)) by (apply WF_unregister; auto; apply WF_run_fin).
     destruct (ptr =? 0); auto. now apply WF_add_log.
   - destruct (lookup ptr (items g)); [|now apply WF_set_err]. apply WF_unregister; auto. apply WF_run_fin.
